@@ -439,6 +439,7 @@ class SimDevice(object):
         self.rid_of = rid_of or (lambda lid, dev: 1000 + lid)
         self.host_maxdata = host_maxdata
         self.service_for = None      # callable(dest bytes, dev) -> service
+        self.thaw_after = None       # n: frozen streams are released once the device has sent n more data WRITEs of other streams
         self.zero_ops = {}           # op index -> 'a0' | 'a1' | 'both': data packets of that operation's stream carry zero ids (legacy adbd)
         self.zero_dest = {}          # the same, by destination
         self.stray_zero_ops = {}     # op index -> payload: the OPEN of that operation is answered by one WRTE(0, 0, payload) only
@@ -629,6 +630,11 @@ class SimDevice(object):
                 st.await_ack = True
                 st.sent.append(payload)
                 self.put(wire.frame('WRTE', a0, a1, payload), lid=lid, unit=len(st.sent), **extra)
+                if self.thaw_after is not None and self.frozen:
+                    self.thaw_after -= 1
+                    if self.thaw_after <= 0:
+                        self.frozen = set()
+                        self.thaw_after = None
             else:
                 st.dev_closed = True
                 self.put(wire.frame('CLSE', a0, a1), lid=lid, **extra)
